@@ -23,7 +23,8 @@ pub enum COp {
 #[derive(Clone, Debug)]
 pub struct CHist {
     pub ops: Vec<COp>,
-    /// "pay" (payload language, nodes bind at most one slot) or "sym" (multi-slot leaves, nodes binding two slots)
+    /// "pay" (payload language, nodes bind at most one slot), "sym" (multi-slot leaves, nodes binding two slots) or
+    /// "arith" (arithmetic with a constant-folding analysis whose modify hook inserts the constant and unions)
     pub lang: &'static str,
 }
 
@@ -58,6 +59,10 @@ pub fn gen_chist(rng: &mut Rng, with_dump: bool) -> CHist {
     // a third of the histories run over the symbolic language (multi-slot leaves, nodes that bind two slots, no payloads)
     if rng.chance(1, 3) {
         return gen_chist_sym(rng, with_dump);
+    }
+    // a quarter of the rest: arithmetic with an analysis attached (make / merge / modify run inside every public call)
+    if rng.chance(1, 4) {
+        return gen_chist_arith(rng, with_dump);
     }
     // half of the histories are free of Symbol payloads (the known interner-order dependence cannot show in them)
     let with_symbols = rng.chance(1, 2);
@@ -161,16 +166,101 @@ fn gen_chist_sym(rng: &mut Rng, with_dump: bool) -> CHist {
     CHist { ops, lang: "sym" }
 }
 
-/// Replays the history and renders every observable result. `at_op` is called at every operation boundary.
-pub fn transcript(h: &CHist, print_live: bool, at_op: &mut dyn FnMut(usize)) -> Result<Vec<String>, PanicInfo> {
-    if h.lang == "sym" {
-        transcript_l::<LSym>(h, print_live, at_op)
-    } else {
-        transcript_l::<LPay>(h, print_live, at_op)
+/// Constant folding over F_7 for the "arith" histories: `modify` inserts the constant and unions it with the class (so the hook
+/// itself adds, unions and rebuilds - analysis hooks run inside every public call of these histories).
+#[derive(Default)]
+pub struct CFold;
+impl Analysis<LArith> for CFold {
+    type Data = Option<u32>;
+    fn make(eg: &EGraph<LArith, Self>, n: &LArith) -> Option<u32> {
+        let d = |a: &AppliedId| *eg.analysis_data(a.id);
+        match n {
+            LArith::Num(k) => Some(k % 7),
+            LArith::Var(_) => None,
+            LArith::Add(a, b) => d(a).zip(d(b)).map(|(x, y)| (x + y) % 7),
+            LArith::Mul(a, b) => d(a).zip(d(b)).map(|(x, y)| (x * y) % 7),
+            LArith::Sum(b) => d(&b.elem).map(|x| (x * 3) % 7),
+            LArith::Let(b, _) => d(&b.elem),
+        }
+    }
+    fn merge(l: Option<u32>, r: Option<u32>) -> Option<u32> {
+        match (l, r) {
+            (Some(a), Some(b)) => Some(a.min(b)),
+            (a, b) => a.or(b),
+        }
+    }
+    fn modify(eg: &mut EGraph<LArith, Self>, i: Id) {
+        if let Some(k) = *eg.analysis_data(i) {
+            let a = eg.add(LArith::Num(k));
+            let ident = eg.mk_identity_applied_id(eg.find_applied_id(&eg.mk_identity_applied_id(i)).id);
+            eg.union(&a, &ident);
+        }
     }
 }
 
-fn transcript_l<LPay: Language + 'static>(h: &CHist, print_live: bool, at_op: &mut dyn FnMut(usize)) -> Result<Vec<String>, PanicInfo> {
+fn gen_chist_arith(rng: &mut Rng, with_dump: bool) -> CHist {
+    let cfg = GenCfg { lang: &LARITH, ops: vec!["#num", "#num", "var", "add", "mul", "add", "mul", "sum", "let"], ns: 2, max_depth: 4, max_names: 3, shadow: rng.chance(1, 3) };
+    let rules: Vec<(&str, &str, &str)> = vec![
+        ("add-comm", "(add ?a ?b)", "(add ?b ?a)"),
+        ("mul-comm", "(mul ?a ?b)", "(mul ?b ?a)"),
+        ("add-assoc", "(add ?a (add ?b ?c))", "(add (add ?a ?b) ?c)"),
+        ("distr", "(mul ?a (add ?b ?c))", "(add (mul ?a ?b) (mul ?a ?c))"),
+        ("add-0", "(add ?a 0)", "?a"),
+        ("mul-1", "(mul ?a 1)", "?a"),
+        ("let-subst", "(let $x ?b ?e)", "?b[(var $x) := ?e]"),
+        ("sum-add", "(sum $x (add ?a ?b))", "(add (sum $x ?a) (sum $x ?b))"),
+    ];
+    let pats = ["(add ?a ?b)", "(mul ?a ?b)", "(sum $x ?b)", "(let $x ?b ?e)", "?a", "(add ?a ?a)"];
+    let n = rng.range(6, 16);
+    let mut ops = vec![];
+    let mut nadd = 0;
+    for _ in 0..n {
+        let roll = rng.below(100);
+        if roll < 40 || nadd < 2 {
+            let t = gen_closed_term(rng, &cfg);
+            ops.push(COp::Add(t.text(&LARITH, &pname)));
+            nadd += 1;
+        } else if roll < 50 {
+            // unions of arbitrary arithmetic terms would assert false equations between constants; a term is united with itself plus zero instead
+            let i = rng.below(nadd);
+            let t = if let COp::Add(t) = ops.iter().filter(|o| matches!(o, COp::Add(_))).nth(i).unwrap() { t.clone() } else { unreachable!() };
+            ops.push(COp::Add(format!("(add {t} 0)")));
+            nadd += 1;
+            ops.push(COp::Union(i, nadd - 1));
+        } else if roll < 70 {
+            let k = rng.range(1, 3);
+            let mut idx = rng.perm(rules.len());
+            idx.truncate(k);
+            ops.push(COp::Rewrite(idx.into_iter().map(|i| (rules[i].0.to_string(), rules[i].1.to_string(), rules[i].2.to_string())).collect()));
+        } else if roll < 80 {
+            ops.push(COp::Match(pats[rng.below(pats.len())].to_string()));
+        } else if roll < 94 {
+            ops.push(COp::Extract(rng.below(nadd)));
+        } else if with_dump {
+            ops.push(COp::Dump);
+        } else {
+            ops.push(COp::Explain(rng.below(nadd), rng.below(nadd)));
+        }
+    }
+    explain_asserted(&mut ops);
+    CHist { ops, lang: "arith" }
+}
+
+/// Replays the history and renders every observable result. `at_op` is called at every operation boundary.
+pub fn transcript(h: &CHist, print_live: bool, at_op: &mut dyn FnMut(usize)) -> Result<Vec<String>, PanicInfo> {
+    if h.lang == "sym" {
+        transcript_l::<LSym, ()>(h, print_live, at_op)
+    } else if h.lang == "arith" {
+        transcript_l::<LArith, CFold>(h, print_live, at_op)
+    } else {
+        transcript_l::<LPay, ()>(h, print_live, at_op)
+    }
+}
+
+fn transcript_l<LPay: Language + 'static, N: Analysis<LPay> + Default + 'static>(h: &CHist, print_live: bool, at_op: &mut dyn FnMut(usize)) -> Result<Vec<String>, PanicInfo>
+where
+    N::Data: std::fmt::Debug,
+{
     let mut out: Vec<String> = vec![];
     let mut emit = |s: String, out: &mut Vec<String>| {
         if print_live {
@@ -179,7 +269,7 @@ fn transcript_l<LPay: Language + 'static>(h: &CHist, print_live: bool, at_op: &m
         out.push(s);
     };
     guard(|| {
-        let mut eg: EGraph<LPay> = EGraph::default();
+        let mut eg: EGraph<LPay, N> = EGraph::default();
         let mut ids: Vec<AppliedId> = vec![];
         let mut texts: Vec<String> = vec![];
         for (k, op) in h.ops.iter().enumerate() {
@@ -198,7 +288,7 @@ fn transcript_l<LPay: Language + 'static>(h: &CHist, print_live: bool, at_op: &m
                 }
                 COp::Rewrite(rs) => {
                     if eg.total_number_of_nodes() < 80 {
-                        let rws: Vec<Rewrite<LPay>> = rs.iter().map(|(n, l, r)| Rewrite::new(n, l, r)).collect();
+                        let rws: Vec<Rewrite<LPay, N>> = rs.iter().map(|(n, l, r)| Rewrite::new(n, l, r)).collect();
                         let r = apply_rewrites(&mut eg, &rws);
                         emit(format!("rewrite {:?} -> {r}", rs.iter().map(|x| x.0.clone()).collect::<Vec<_>>()), &mut out);
                     }
@@ -242,7 +332,7 @@ fn transcript_l<LPay: Language + 'static>(h: &CHist, print_live: bool, at_op: &m
         for i in eg.ids() {
             let mut ns: Vec<String> = eg.enodes(i).iter().map(|n| format!("{n:?}")).collect();
             ns.sort();
-            emit(format!("  class {i:?}: {ns:?}"), &mut out);
+            emit(format!("  class {i:?}: {ns:?} data={:?}", eg.analysis_data(i)), &mut out);
         }
     })?;
     Ok(out)
@@ -266,6 +356,15 @@ fn noise(seed: u64, stop: Arc<std::sync::atomic::AtomicBool>, sched: Arc<Mutex<V
                 let _ = (a, b);
                 let _ = Slot::fresh();
             }
+        }
+        // unrelated e-graph work with an analysis attached: towers of constants, every level runs the modify hook (add + union + rebuild)
+        {
+            let mut ea: EGraph<LArith, CFold> = EGraph::default();
+            let mut t = format!("{}", rng.below(7));
+            for _ in 0..rng.range(3, 9) {
+                t = if rng.chance(1, 2) { format!("(add {} {t})", rng.below(7)) } else { format!("(mul {t} {})", rng.below(7)) };
+            }
+            let _ = ea.add_expr(RecExpr::parse(&t).unwrap());
         }
         sched.lock().unwrap().push((tid, k));
         k = k.wrapping_add(1);
@@ -404,6 +503,7 @@ pub fn run_case(rng: &mut Rng, case_seed: u64, processes: usize, argv_extra: &[S
     }
     out.add("transcript_lines", base.len() as u64);
     out.inc("histories");
+    out.inc(match h.lang { "arith" => "histories_with_analysis_hooks", "sym" => "histories_symbolic_language", _ => "histories_payload_language" });
     out.nontrivial = Some(crate::rng::fnv(&format!("{:?}", h.ops)));
     out.sample = Some(J::obj(vec![("mode", J::s("replays")), ("ops", J::A(h.ops.iter().take(8).map(|o| J::s(format!("{o:?}"))).collect())), ("first_schedule_entries", J::s(format!("{prefix:?}")))]));
     out
